@@ -433,20 +433,21 @@ pub fn raw_encode(p: &P, idw: i64) -> Option<Vec<u8>> {
     Some(out)
 }
 
-/// Make a valid frame unparsable while keeping it one well-framed packet: the body loses its last
-/// byte (or gains a stray one when it is empty) and the Remaining Length is adjusted.
+/// Make a valid single frame unparsable while keeping it one well-framed packet.
+/// PUBLISH / CONNECT: the first length-prefixed field claims 65535 bytes; every other kind keeps only the
+/// first byte of its body (an identifier cut in half, a CONNACK without return code, ...).
 pub fn corrupt(frame: &[u8]) -> Vec<u8> {
-    // only single-byte remaining lengths are used by the checks' alphabets
     let rl = frame[1] as usize;
-    if frame.len() == 2 + rl && rl < 127 {
-        if rl == 0 {
-            vec![frame[0], 1, 0xFF]
-        } else {
-            let mut v = vec![frame[0], (rl - 1) as u8];
-            v.extend_from_slice(&frame[2..frame.len() - 1]);
-            v
-        }
+    if !(frame.len() == 2 + rl && rl < 127 && rl >= 2) {
+        return frame.to_vec(); // only single-byte remaining lengths are used by the checks' alphabets
+    }
+    let nib = frame[0] >> 4;
+    if nib == 3 || nib == 1 {
+        let mut v = frame.to_vec();
+        v[2] = 0xFF;
+        v[3] = 0xFF;
+        v
     } else {
-        frame.to_vec()
+        vec![frame[0], 1, frame[2]]
     }
 }
